@@ -6,7 +6,6 @@ import (
 	"go.uber.org/cff"
 	"runtime"
 	"strconv"
-	"strings"
 	"sync"
 	"sync/atomic"
 	"time"
@@ -368,12 +367,7 @@ func (e *Env) begin(unit, elem, idx int, key string, ctx context.Context, ins []
 		// goroutines started by the scheduler, the cff runtime or generated
 		// code (exiting goroutines no longer appear in a stack dump, unlike
 		// in runtime.NumGoroutine)
-		n := int32(0)
-		for _, g := range DumpGoroutines() {
-			if strings.Contains(g.Text, "created by go.uber.org/cff") || strings.Contains(g.Text, "created by vcase/p") {
-				n++
-			}
-		}
+		n := int32(CreatedFor(DumpGoroutines(), e.CallGid))
 		for {
 			old := e.MaxG.Load()
 			if n <= old || e.MaxG.CompareAndSwap(old, n) {
